@@ -1,6 +1,6 @@
 (* executable wrappers comparing the C10 models (binary64 instance) with observations of the implementation *)
 From Coq Require Import ZArith List Bool PrimFloat.
-From PR Require Import Base.Num Base.F64 Base.ListX Base.Slice Model.Grid Model.SliceArea Model.Stack Gen.GenC10.
+From PR Require Import Base.Num Base.F64 Base.ListX Base.Slice Model.Grid Model.SliceArea Model.Stack Model.LonlatPaths Gen.GenC10.
 Import ListNotations.
 Open Scope Z_scope.
 
@@ -40,8 +40,10 @@ Definition chk_vectors (c : fobs * list float * list float) : bool :=
   let '(o, xs, ys) := c in
   list_eqb same_bits (gvec_x F64 (mkg o)) xs && list_eqb same_bits (gvec_y F64 (mkg o)) ys.
 
+(* the regenerated concatenate_area_defs (axis=0) and the hand model *)
 Definition chk_concat (c : fobs * fobs * option fobs) : bool :=
-  let '(a, b, e) := c in obs_opt_eqb (concatenate_area_defs F64 (mkg a) (mkg b)) e.
+  let '(a, b, e) := c in
+  obs_opt_eqb (gen_concatenate_area_defs F64 (mkg a) (mkg b) 0) e && obs_opt_eqb (concatenate_area_defs F64 (mkg a) (mkg b)) e.
 
 (* StackedAreaDefinition of the given members: the members after all appends (None = NotImplementedError), height, width *)
 Definition chk_stack (c : list fobs * option (list fobs * Z * Z)) : bool :=
@@ -67,3 +69,21 @@ Definition chk_np_chain (c : Z * Z * list (oslice * oslice) * list (list Z)) : b
   zgrid_eqb (fst (fold_left (fun acc k => swath_getitem k acc) keys (tag_grid n m, tag_grid n m))) e.
 Definition chk_swath_concat (c : list (list Z) * list (list Z) * list (list Z)) : bool :=
   let '(a, b, e) := c in zgrid_eqb (fst (swath_concat (a, a) (b, b))) e.
+
+(* dask path: the projection coordinate arrays assembled from the blocks of the chunking dask actually used *)
+Definition fgrid_eqb (a b : list (list float)) : bool := list_eqb (list_eqb same_bits) a b.
+Definition chk_dask (c : fobs * list Z * list Z * list (list float) * list (list float)) : bool :=
+  let '(o, cy, cx, ex, ey) := c in
+  fgrid_eqb (dask_grid F64 (fun x _ => x) (g_area (mkg o)) cy cx) ex &&
+  fgrid_eqb (dask_grid F64 (fun _ y => y) (g_area (mkg o)) cy cx) ey.
+
+(* cache= histories on one AreaDefinition: after every call, is the memo (self.lons) set? *)
+Fixpoint memo_trace (g : garea float) (memo : option (list (list float)))
+         (ops_ : list (option (oslice * oslice) * bool * bool)) : bool :=
+  match ops_ with
+  | [] => true
+  | (ds, flag, seen) :: r =>
+      let '(memo', _) := area_call F64 (fun x _ => x) g memo ds flag in
+      Bool.eqb (match memo' with Some _ => true | None => false end) seen && memo_trace g memo' r
+  end.
+Definition chk_memo (c : fobs * list (option (oslice * oslice) * bool * bool)) : bool := memo_trace (mkg (fst c)) None (snd c).
